@@ -34,6 +34,7 @@ class Runner:
                 fh.write(I.render(prog, twin=twin))
             self.paths[twin] = p
         self.count = 0
+        self.first = None
 
     def load(self, twin=False):
         self.count += 1
@@ -51,6 +52,13 @@ class Runner:
         shadow = self.prog.get("shadow")
         if shadow and hasattr(mod, shadow):
             delattr(mod, shadow)
+        if self.prog.get("precall"):
+            # two calls; when the function gets instrumented, the first call was made BEFORE that (run_variant did it):
+            # whatever state the function keeps between calls (mutable defaults) must carry over
+            first = self.first if self.first is not None else self.call1(mod, fn, script)
+            self.first = None
+            log2, result2 = self.call1(mod, fn, script)
+            return first[0] + [["second-call"]] + log2, first[1] + ["|"] + result2
         log, result = self.call1(mod, fn, script)
         if shadow:
             setattr(mod, shadow, rt2.SHADOW)
@@ -183,6 +191,31 @@ def ntargets(prog):
     return out
 
 
+def exotic_paths(runner, paths, opts):
+    """every path once more with the values of its expression sites replaced by unusual objects (numbers whose ==
+    answers True to everything / has no truth value, floats, True); dropped when that changes the control flow"""
+    kinds = opts.get("exotic") or []
+    if not kinds:
+        return []
+    mod = runner.load(twin=True)
+    fn = getattr(mod, runner.name)
+    out = []
+    for i, (script, _log, _res) in enumerate(paths):
+        if not any(d[0] == "E" and not d[3] and isinstance(d[2], int) for d in script):
+            continue
+        kind = kinds[(i + runner.prog.get("id", 0)) % len(kinds)]
+        s2 = [([d[0], d[1], f"x:{kind}:{d[2]}", d[3]] if d[0] == "E" and not d[3] and isinstance(d[2], int) else d) for d in script]
+        try:
+            if runner.prog.get("precall"):
+                mod = runner.load(twin=True)
+                fn = getattr(mod, runner.name)
+            log, res = runner.call(mod, fn, s2)
+        except (rt2.NeedDecision, rt2.BadScript):
+            continue
+        out.append((s2, log, res))
+    return out
+
+
 def forshapes(prog):
     out = {}
     for s in I.walk(prog["body"]):
@@ -202,6 +235,10 @@ def enumerate_paths(runner, opts, rng):
         if len(script) > 60:
             continue
         try:
+            if runner.prog.get("precall"):
+                # the function keeps state between calls: every attempt starts from a fresh module
+                mod = runner.load(twin=True)
+                fn = getattr(mod, runner.name)
             log, result = runner.call(mod, fn, script)
             done.append((script, log, result))
         except rt2.NeedDecision as nd:
@@ -216,6 +253,8 @@ def variants(prog, opts, rng):
     names = [n for n in I.local_names(prog)]
     out = []
     vs = opts["variants"]
+    if prog.get("precall"):
+        vs = [v for v in vs if v != "tooled"]        # tooled(fn) makes a NEW function (fresh defaults): not comparable
     if "tooled" in vs:
         out.append({"mode": "tooled", "sels": []})
     if "inplace" in vs:
@@ -307,6 +346,8 @@ def run_variant(runner, var, script):
 
 def _run_variant(runner, var, script, mod, fn, rec):
     try:
+        if runner.prog.get("precall"):
+            runner.first = runner.call1(mod, fn, script)         # the call made before any instrumentation
         if var["mode"] == "tooled":
             fn2 = tooled(fn)
             rec["log"], rec["result"] = runner.call(mod, fn2, script)
@@ -436,6 +477,7 @@ def main():
             opts["_forshapes"] = forshapes(prog)
             runner = Runner(prog, work)
             paths = enumerate_paths(runner, opts, rng)
+            paths = paths + exotic_paths(runner, paths, opts)
             vars_ = variants(prog, opts, rng)
             for script, reflog, refres in paths:
                 mod = runner.load(twin=False)
